@@ -129,9 +129,18 @@ def check(ctx: Ctx) -> None:
     ctx.assume("user-defined __str__/_repr_html_/tagify are pure")
     m = model(ctx)
     emission_obligations(ctx, m, "C02")
-    check_escape_function(ctx, ["text"], "C02")
+    check_escape_function(ctx, ["text"], "C02", strict_other=True)
     check_escape_tables(ctx, "C02", attr=False)
     numbers_as_text(ctx, "C02")
+    # "added later by append/extend/insert", "nested in lists": whatever way a child is added, what is stored went through the
+    # normaliser (a raw number / nested list in the storage is never emitted as escaped text)
+    from ..interp import Interp
+    from ..report import SharedCtx
+    from .c14 import operation_obligations
+    operation_obligations(SharedCtx(ctx, lambda r: "C02.stores" if r in ("C14.taint", "C14.stores") else None), Interp(ctx.prog))
+    # ... including text and numbers displayed inside a `with tag:` block
+    from .c17 import wrapper_table
+    wrapper_table(ctx, Interp(ctx.prog), rule="C02.hook", only={"STR", "INT", "FLOAT"})
     # exported name
     init = ctx.prog.module("htmltools")
     k, v = ctx.prog.resolve(init, "html_escape")
